@@ -21,7 +21,36 @@ Open Scope list_scope.
    wrote only in clear, before an upgrade that it then completed). *)
 Inductive case :=
 | KScript (c : scase)
-| KPipelined (c : scase) (glued : list bool) (clear : list nat).
+| KPipelined (c : scase) (glued : list bool) (clear : list nat)
+(* the option calls of one end of a real transport pair (the other end makes the same calls at the same time):
+   what it says it supports, what is in force initially, and a sequence of SetEncryption (true) / SetCompression
+   (false) calls, each with its argument, whether it succeeded and what was in force afterwards *)
+| KOptions (k : tkind) (sup_enc sup_comp : list string) (init_enc init_comp : string)
+           (calls : list (bool * string * bool * string * string)).
+
+(* Hs/Types.v's view of the same calls *)
+Fixpoint options_agree (k : tkind) (enc comp : string) (calls : list (bool * string * bool * string * string)) : bool :=
+  match calls with
+  | [] => true
+  | (is_enc, arg, ok, enc', comp') :: r =>
+      (if is_enc
+       then let (ok_m, enc_m) := set_enc k true enc arg in
+            Bool.eqb ok ok_m && String.eqb enc' enc_m && String.eqb comp' comp
+       else Bool.eqb ok (set_comp k comp arg) && String.eqb enc' enc && String.eqb comp' comp) &&
+      options_agree k enc' comp' r
+  end.
+(* C09's clauses on the calls themselves: a failed call changes nothing; a successful one leaves its argument in
+   force and the argument is among the supported options; encryption is never taken back to "none" *)
+Fixpoint options_ok (sup_enc sup_comp : list string) (enc comp : string) (calls : list (bool * string * bool * string * string)) : bool :=
+  match calls with
+  | [] => true
+  | (is_enc, arg, ok, enc', comp') :: r =>
+      (if ok then (if is_enc then String.eqb enc' arg && mem arg sup_enc && String.eqb comp' comp
+                   else String.eqb comp' arg && mem arg sup_comp && String.eqb enc' enc)
+       else String.eqb enc' enc && String.eqb comp' comp) &&
+      negb (String.eqb enc "tls" && String.eqb enc' "none") &&
+      options_ok sup_enc sup_comp enc' comp' r
+  end.
 
 (* what a pipelined run is compared on: the session envelopes the server wrote (with the encryption they were
    read under) and the callbacks it made (with the encryption in force) *)
@@ -46,6 +75,7 @@ Definition check (c : case) : bool :=
                           (ob_calls (k_obs s))
       | None => true
       end
+  | KOptions k se sc ie ic calls => mem ie se && mem ic sc && options_ok se sc ie ic calls
   end.
 Definition agrees (c : case) : bool :=
   match c with
@@ -53,6 +83,9 @@ Definition agrees (c : case) : bool :=
   | KPipelined s glued _ =>
       Nat.eqb (List.length glued) (List.length (k_script s)) &&
       evs_eqb (pipe_proj (k_obs s)) (pipe_proj (pipe_model s glued))
+  | KOptions k se sc ie ic calls =>
+      strs_eqb se (supported_enc k) && strs_eqb sc (supported_comp k) && String.eqb ie (initial_enc k) &&
+      String.eqb ic "none" && options_agree k ie ic calls
   end.
 Definition mismatches (cs : list case) : list nat := bad_indices agrees cs.
 Definition violations (cs : list case) : list nat := bad_indices check cs.
